@@ -4,9 +4,11 @@ CONSTANTS
   MaxFragments = 1
   FnScopes = {"def"}
   MaxDepth = 1
+  FixedLines = TRUE
+  FixedFwd = TRUE
   PosMaxLines = 2
   NodesHavePos = TRUE
-  DevOn = {"fwd", "split"}
+  DevOn = {}
   YSites = {"oneline"}
   YPads = {"none"}
   YBefore = {0}
